@@ -13,7 +13,7 @@ import inspect
 import logging
 import threading
 from abc import ABC, abstractmethod
-from collections.abc import Callable, Iterable, Sized
+from collections.abc import Callable, Iterable, Iterator, Sized
 from dataclasses import dataclass, field
 from functools import wraps
 from itertools import count
@@ -1177,11 +1177,28 @@ def _in_distance(val1, val2) -> float:
     #  otherwise the check might take very long.
 
     # If `val2` is not iterable, there is no element to compare against.
-    if not isinstance(val2, Iterable):
+    # The elements of an iterator can be seen only once, we must not consume them.
+    if not isinstance(val2, Iterable) or isinstance(val2, Iterator):
         return inf
 
     # Use the shortest distance to any element of the iterable.
     return min([_eq_distance(val1, v) for v in val2] + [inf])
+
+
+def _membership_test_consumes(container) -> bool:
+    """Whether a membership test changes the container, because it is an iterator.
+
+    Python falls back to iterating over the container if it has no `__contains__`.
+    For an iterator this consumes its elements: the subject under test would see
+    another outcome than we do when it evaluates the membership test afterwards.
+
+    Args:
+        container: the container of the membership test
+
+    Returns:
+        Whether the membership test must not be evaluated
+    """
+    return isinstance(container, Iterator) and not hasattr(type(container), "__contains__")
 
 
 def _unit_distance(val1, val2) -> float:  # noqa: ARG001
@@ -1466,6 +1483,13 @@ class ExecutionTracer(AbstractExecutionTracer):  # noqa: PLR0904
             value1 = tt.unwrap(value1)
             value2 = tt.unwrap(value2)
 
+            if cmp_op in {
+                PynguinCompare.IN,
+                PynguinCompare.NOT_IN,
+            } and _membership_test_consumes(value2):
+                # We cannot know the outcome without changing it.
+                return
+
             # The outcome is the one of Python's own operator, the heuristics are only
             # used to estimate the distance to the branch that is not taken.
             match cmp_op:
@@ -1561,6 +1585,8 @@ class ExecutionTracer(AbstractExecutionTracer):  # noqa: PLR0904
         with self.temporarily_disable():
             value1 = tt.unwrap(value1)
             value2 = tt.unwrap(value2)
+            if _membership_test_consumes(value2):
+                return
             try:
                 outcome = bool(value1 in value2)
             except Exception:  # noqa: BLE001
